@@ -224,6 +224,27 @@ def check_case(case, stats=None, scratch=None):
 def shard_random(shard, nshards, tier, seed, scratch):
     total = 9000 if tier == 'quick' else 300000
     stats = Stats()
+    # a few large tables (buffer boundaries of the writer / reader: 1024 lines, 8 KiB decode blocks)
+    big_failures = []
+    for n in ([1023, 1025, 3000] if shard == 0 else [2048 + shard, 700 * (shard + 1)]):
+        table = [['id%d' % i, ['plain', 'with,comma', 'q"uote', ' lead', 'é€', ''][i % 6], 'x' * (i % 37)] for i in range(n)]
+        for dlm, policy, enc in ((',', 'quoted', 'utf-8'), ('\t', 'simple', None), ('::', 'quoted_rfc', 'latin-1')):
+            t2 = table if policy != 'simple' else [[c.replace('\t', ' ') for c in r] for r in table]
+            if enc == 'latin-1':
+                t2 = [[c.replace('€', 'E') for c in r] for r in t2]
+            try:
+                check_table(t2, dlm, policy, '\r\n' if n % 2 else '\n', enc, None)
+                stats.bump('large-table-%s' % policy)
+                stats.evaluations += 1
+            except Violation as v:
+                d = dict(v.detail)
+                d['table'] = 'large table of %d records (omitted)' % n
+                d.pop('got', None)
+                d.pop('payload', None)
+                big_failures.append({'leg': 'large', 'clause': 'large-' + v.clause, 'detail': d, 'case': {'table': t2[:3], 'delim': dlm, 'policy': policy, 'line_sep': '\n', 'encoding': enc, 'note': 'first 3 of %d records' % n}})
+                break
+    if big_failures:
+        return {'stats': stats.export(), 'failures': big_failures[:1]}
     fails = run_hypothesis(st_case(), lambda c: check_case(c, stats, scratch), max(1, total // nshards), seed, shrink_budget=300 if tier == 'quick' else 2000)
     for f in fails:
         f['leg'] = 'random'
